@@ -66,6 +66,14 @@ SIMPLE_OPS = ["out d 0 0", "out d 0 1", "out j 0 0", "out j 0 1", "out y 0 0", "
 MASSIVE_OPS = ["mout d 0 0", "mout j 0 0"]
 
 
+def _valid_utf8(b):
+    try:
+        b.decode("utf-8")
+        return True
+    except UnicodeDecodeError:
+        return False   # yaml.v3 / go-toml on names that are not UTF-8 are outside every claim
+
+
 def paths_of_json(text):
     paths = set()
 
@@ -170,7 +178,7 @@ def run(ck, rng):
             ck.violation({"property": "C02", "kind": "complete_or_rejected", "class": bad[:24] + "|" + op[:4], "case": cases[i],
                           "input": doc[:400].decode("utf-8", "replace"), "verdict": v[:200], "got": impl[i][:400], "why": bad,
                           "expected": model[i]})
-        elif not op.startswith("m") and impl[i] != model[i]:
+        elif not op.startswith("m") and impl[i] != model[i] and not (op[4] in "yt" and not _valid_utf8(doc)):
             if r == "ok" or model[i].split(" ")[0] == "ok" or r.split(":")[1] != model[i].split(" ")[0].split(":")[1]:
                 broken = broken or (cases[i][:1500], impl[i][:300], model[i][:300])
             else:
